@@ -1005,7 +1005,7 @@ def register(reg):
     @reg.contract
     class ResponseClosed(Contract):
         key = H2 + "._response_closed"
-        props = ("C12", "C05", "C09", "C06", "C01", "C13")
+        props = ("C12", "C05", "C09", "C06", "C01", "C13", "C08")
         params = {"stream_id": "int"}
         modifies = ("H2._events", "H2._state", "H2._expire_at", "Sem.permits", "SemG.mine", "NS.open", "X.closed")
         raises = ["Cancelled", "KeyError"]
@@ -1079,7 +1079,16 @@ def register(reg):
             # checked by unread_data_event_is_acknowledged_with_its_flow_controlled_length)
             names = [e.name for e in c.trace if e.name in ("for.iter", "dict.del")]
             acks = [1] if names[:2] == ["for.iter", "dict.del"] else []
+            # from the property (C12 "further requests wait for a stream to end rather than fail", C08 "a request never fails because
+            # of what another thread did", C05): the connection may report itself IDLE - evictable, expiring - only when no request
+            # that has passed the ACTIVE gate is still in flight.  Ghost `admitted` = requests past the gate and not yet closed
+            # (>= the registered streams, >= 1: this one).  The code decides on `not self._events`, and a request is registered
+            # there only AFTER it has waited for a stream slot: while it waits it is admitted but invisible.
+            admitted = z3.Int("H2_admitted_requests")
+            c.eng.assume(c.st, admitted >= 1)
+            idle_written = z3.BoolVal(bool(turned_idle))
             return [
+                ("idle_only_when_no_admitted_request_is_left", ("C12", "C08", "C05"), z3.Implies(idle_written, admitted - 1 == 0)),
                 ("slot_released_exactly_once", ("C12", "C05"), len(rel) == 1),
                 ("stream_unregistered", ("C12", "C05"), z3.And(*[e.data["key"].t == sid for e in c.events("dict.del")]) if len(c.events("dict.del")) == 1 else False),
                 ("expiry_is_now_plus_keepalive_when_turning_idle", ("C09",), armed),
